@@ -1,7 +1,7 @@
 """Rule registry and the property -> rules table (DESIGN.md sections 3 and 4)."""
 from __future__ import annotations
 
-from .rules import dp, decode, cost, serial, utils, geom
+from .rules import dp, decode, cost, serial, utils, geom, render
 
 RULES = {}
 RULES.update(dp.RULES)
@@ -10,6 +10,7 @@ RULES.update(cost.RULES)
 RULES.update(serial.RULES)
 RULES.update(utils.RULES)
 RULES.update(geom.RULES)
+RULES.update(render.RULES)
 
 PROPERTY_RULES = {
     "T00": list(decode.RULES),
@@ -17,6 +18,7 @@ PROPERTY_RULES = {
     "T02": list(serial.RULES),
     "T03": list(utils.RULES),
     "T04": list(geom.RULES),
+    "T05": list(render.RULES),
     "C16": ["UPDATE-PAIRING", "RETENTION-GUARDS", "POLARITY", "PROXY-NONE", "COMBINE-PRODUCT"],
 }
 
